@@ -426,5 +426,6 @@ EXCEPTIONS = (
     MinecraftSyntaxWarning,
     JMCBuildError,
     MinecraftVersionTooLow,
+    MinecraftVersionTooHigh,
     EvaluationException,
 )
